@@ -101,27 +101,40 @@ def reverse(m):
              z3.Lambda([x], m.n - 1 - z3.Select(m.pos, x)))
 
 
-# sort: A-bi-sort -- list.sort() yields SORT(old): a permutation (bijection perm / inverse) of the old list
-SORT_perm = z3.Function('sort_perm', z3.ArraySort(I, smt.KEY), I, I, I)       # (ord, n, i) -> old index
-SORT_inv = z3.Function('sort_inv', z3.ArraySort(I, smt.KEY), I, I, I)
+# sort: A-bi-sort -- list.sort(key=f, reverse=r) yields SORT(old, f, r): a permutation (bijection perm / inverse) of the old list that
+# depends on the list, the key function (0: none) and the reverse flag and on nothing else; no relation between the results for different
+# (f, r) is assumed (in particular sort(reverse=True) is NOT reverse(sort()): list.sort is stable in both directions)
+SORT_perm = z3.Function('sort_perm', z3.ArraySort(I, smt.KEY), I, I, z3.BoolSort(), I, I)       # (ord, n, keyfn, reverse, i) -> old index
+SORT_inv = z3.Function('sort_inv', z3.ArraySort(I, smt.KEY), I, I, z3.BoolSort(), I, I)
 
 
-def sort_axioms(ordarr, n):
+def _b(x):
+    return z3.BoolVal(x) if isinstance(x, bool) else x
+
+
+def sort_axioms(ordarr, n, fid=0, rev=False):
     i = z3.Int('i!sp')
-    return [z3.ForAll([i], z3.Implies(z3.And(i >= 0, i < n), z3.And(SORT_perm(ordarr, n, i) >= 0, SORT_perm(ordarr, n, i) < n,
-                                                                   SORT_inv(ordarr, n, SORT_perm(ordarr, n, i)) == i))),
-            z3.ForAll([i], z3.Implies(z3.And(i >= 0, i < n), z3.And(SORT_inv(ordarr, n, i) >= 0, SORT_inv(ordarr, n, i) < n,
-                                                                   SORT_perm(ordarr, n, SORT_inv(ordarr, n, i)) == i)))]
+    rev = _b(rev)
+    P = lambda x: SORT_perm(ordarr, n, fid, rev, x)
+    Q = lambda x: SORT_inv(ordarr, n, fid, rev, x)
+    ax = [z3.ForAll([i], z3.Implies(z3.And(i >= 0, i < n), z3.And(P(i) >= 0, P(i) < n, Q(P(i)) == i))),
+          z3.ForAll([i], z3.Implies(z3.And(i >= 0, i < n), z3.And(Q(i) >= 0, Q(i) < n, P(Q(i)) == i)))]
+    if isinstance(fid, int) and fid == 0:
+        # without a key function the keys themselves are compared; they are pairwise distinct (wf) and strictly totally ordered,
+        # so there are no ties and the descending order is the ascending order read backwards
+        T_, F_ = z3.BoolVal(True), z3.BoolVal(False)
+        ax.append(z3.ForAll([i], z3.Implies(z3.And(i >= 0, i < n), SORT_perm(ordarr, n, 0, T_, i) == SORT_perm(ordarr, n, 0, F_, n - 1 - i))))
+    return ax
 
 
-def sorted_arr(ordarr, n):
+def sorted_arr(ordarr, n, fid=0, rev=False):
     j = z3.Int('j!srt')
-    return z3.Lambda([j], z3.Select(ordarr, SORT_perm(ordarr, n, j)))
+    return z3.Lambda([j], z3.Select(ordarr, SORT_perm(ordarr, n, fid, _b(rev), j)))
 
 
-def sort(m):
+def sort(m, fid=0, rev=False):
     x = z3.Const('x!srt', smt.KEY)
-    return M(m.n, sorted_arr(m.ord, m.n), m.dom, m.val, z3.Lambda([x], SORT_inv(m.ord, m.n, z3.Select(m.pos, x))))
+    return M(m.n, sorted_arr(m.ord, m.n, fid, rev), m.dom, m.val, z3.Lambda([x], SORT_inv(m.ord, m.n, fid, _b(rev), z3.Select(m.pos, x))))
 
 
 # ------------------------------------------------------------------ executable oracle
